@@ -15,7 +15,14 @@ def synth_jobs(ctx, oracles, n, res_models=(3, 4), econ_models=(1, 2, 3), cells=
     for i in range(n):
         cell = cells[i % len(cells)]
         case = gen.synth_case(ctx.rng, cell, **synth_kw)
-        text = gen.render(case)
+        raw = []
+        if ctx.rng.random() < 0.12:
+            # output-unit directives on the price models (series outputs held in USD/kWh, preferred cents/kWh, shown only in
+            # the revenue table): the report must show them in the requested unit
+            for name in ('Electricity Sale Price Model', 'Heat Sale Price Model', 'Cooling Sale Price Model'):
+                if ctx.rng.random() < 0.6:
+                    raw.append(f'Units:{name}, ' + ctx.rng.choice(['USD/MWh', 'USD/kWh', 'cents/kWh', 'USD/MMBTU']))
+        text = gen.render(case, raw)
         jobs.append({'fn': 'gxv.jobs:run_oracles', 'args': {'text': text, 'oracles': oracles, 'tag': {'cell': list(cell)}},
                      'timeout': 120 if cell[3] in (3, 4) else 300})
     return jobs
